@@ -772,15 +772,6 @@ def whole_path(case, ctx):
              "spline_exchange": arbf_exchange.mapping_plan}
     mapped = G.guard(ctx, ("map", mode, plan), lambda: dk.map(plans[plan]), always=True)
     X0T = np.exp(rng.uniform(np.log(0.05), np.log(3.0), (nspin, n0, ns)))
-    if ns == 2 and nspin == 1 and mode != "POL":
-        # a block of exactly two samples with nspin = 1 has the shape apply_descriptor_grad(force_polarize=True) tests for
-        # spin; whatever goes wrong in that block shape is one structural class
-        ctx.event("two_sample_block")
-        try:
-            _whole_compare(case, ctx, dk, mapped, X0T, mulf, addf)
-        except Violation as v:
-            raise Violation((ctx.sc.name, "two_sample_block_nspin1", mode, v.sig[1]), dict(v.detail, original_signature=list(v.sig)))
-        return
     _whole_compare(case, ctx, dk, mapped, X0T, mulf, addf)
 
 
